@@ -278,7 +278,16 @@ func TestVerifC06(t *testing.T) {
 				{K: "msg", C: 1, To: hdToSession(3), Tag: 303}, {K: "msg", C: 1, To: hdToSession(3), Tag: hdChatRefreshTag}, {K: "msg", C: 1, To: hdToSession(3), Tag: hdChatRefreshTag},
 				{K: "connect", C: 4}, {K: "hello", C: 4, Ht: "resume", Id: &hdIdRef{T: "priv", C: 3}},
 				{K: "msg", C: 1, To: hdToSession(4), Tag: hdChatRefreshTag}}
-			return []*hdCase{{Id: 0, Mode: 1, Ops: ops}, {Id: 1, Mode: 1, Ops: gone}, {Id: 2, Mode: 1, Ops: chat}}
+			// a resume whose connection goes away while the hub looks the session up: nothing is attached, the
+			// session still expires, and its id is refused afterwards
+			lost := []hdOp{{K: "connect", C: 1}, {K: "connect", C: 2}, {K: "hello", C: 1, B: 0, U: 1}, {K: "hello", C: 2, B: 0, U: 2},
+				hdJoinOp(1, 1, 1), hdJoinOp(2, 1, 2), {K: "drop", C: 2},
+				{K: "connect", C: 3}, {K: "helloabort", C: 3, Ht: "resume", Id: &hdIdRef{T: "priv", C: 2}},
+				{K: "msg", C: 1, To: &hdRecipient{T: "room"}, Tag: 5},
+				{K: "tick", O: 40},
+				{K: "connect", C: 4}, {K: "hello", C: 4, Ht: "resume", Id: &hdIdRef{T: "priv", C: 2}},
+				{K: "msg", C: 1, To: &hdRecipient{T: "room"}, Tag: 6}}
+			return []*hdCase{{Id: 0, Mode: 1, Ops: ops}, {Id: 1, Mode: 1, Ops: gone}, {Id: 2, Mode: 1, Ops: chat}, {Id: 3, Mode: 1, Ops: lost}}
 		}})
 }
 
@@ -303,6 +312,15 @@ func TestVerifC07(t *testing.T) {
 			}
 			tail := []hdOp{hdJoinOp(2, 2, 5), {K: "bye", C: 2}, {K: "bye", C: 3}, {K: "tick", O: 40}}
 			var out []*hdCase
+			// hellos abandoned mid-way on a backend with two slots, then the slots are used: none was lost
+			ab := []hdOp{{K: "connect", C: 1}, {K: "helloabort", C: 1, B: 0, U: 1, Late: true}, {K: "connect", C: 2}, {K: "helloabort", C: 2, B: 0, U: 2},
+				{K: "connect", C: 3}, {K: "helloabort", C: 3, B: 0, U: 3, Late: true},
+				{K: "connect", C: 4}, {K: "hello", C: 4, B: 0, U: 1}, {K: "connect", C: 5}, {K: "hello", C: 5, B: 0, U: 2},
+				{K: "connect", C: 6}, {K: "hello", C: 6, B: 0, U: 3}, // third one: over the limit
+				{K: "drop", C: 5}, {K: "connect", C: 7}, {K: "helloabort", C: 7, Ht: "resume", Id: &hdIdRef{T: "priv", C: 5}},
+				{K: "tick", O: 40}, {K: "hello", C: 6, B: 0, U: 3}, // the expired session's slot is free again
+				{K: "connect", C: 8}, {K: "helloabort", C: 8, B: 0, U: 1, Late: true}, {K: "bye", C: 4}, {K: "bye", C: 6}}
+			out = append(out, &hdCase{Id: 20, Mode: 1, Backends: []hdBackendCfg{{Limit: 2}, {}}, Ops: ab})
 			for i, ops := range [][]hdOp{
 				take(append([]hdOp{{K: "bye", C: 1}}, tail...)...),
 				take(append([]hdOp{{K: "drop", C: 1}, {K: "tick", O: 40}}, tail...)...),
